@@ -51,6 +51,9 @@ FINITE_ITERATORS = (
     "<std::collections::hash_map::IterMut<'a, K, V> as std::iter::Iterator>::next", "<std::str::SplitN<'a, P> as std::iter::Iterator>::next", "<std::str::RSplitN<'a, P> as std::iter::Iterator>::next",
     "<std::vec::Drain<'_, T, A> as std::iter::Iterator>::next", "<std::ops::Range<A> as std::iter::Iterator>::next", "<std::str::Lines<'a> as std::iter::Iterator>::next",
     "<std::str::SplitWhitespace<'a> as std::iter::Iterator>::next", "<std::str::CharIndices<'a> as std::iter::Iterator>::next",
+    # percent-encoding 2.3.0 src/lib.rs:265-288: every Some(..) of PercentEncode::next consumes at least one byte of the
+    # borrowed slice, None when it is empty -- at most len() items
+    "<percent_encoding::PercentEncode<'a> as std::iter::Iterator>::next",
 )
 
 ADAPTORS = ("std::iter::Enumerate", "std::iter::Rev", "std::iter::Peekable", "std::iter::Skip", "std::iter::Take", "std::iter::Map", "std::iter::Filter", "std::iter::Zip", "std::iter::Chain", "std::iter::Copied", "std::iter::Cloned", "std::iter::FilterMap", "std::iter::TakeWhile", "std::iter::SkipWhile", "std::iter::StepBy", "std::iter::Fuse", "std::iter::Inspect")
